@@ -38,6 +38,15 @@ def steering(seed, K, F, D, kind):
 
 
 def noise_psd(seed, F, D, kind):
+    if kind in ('identity_real', 'sinc_real'):
+        # noise PSDs stored with a real dtype (white noise / diffuse-field coherence matrix)
+        out = np.zeros((F, D, D), float)
+        ii = np.abs(np.arange(D)[:, None] - np.arange(D)[None, :])
+        for f in range(F):
+            out[f] = np.eye(D) * (1 + f) if kind == 'identity_real' else \
+                np.sinc(0.35 * (f + 1) * ii) + 0.05 * np.eye(D)
+        cond = float(max(np.linalg.cond(out[f]) for f in range(F)))
+        return out, cond
     out = np.zeros((F, D, D), complex)
     cond = 1.0
     for f in range(F):
@@ -252,7 +261,7 @@ def subchecks(tier, seed):
     Ds = (2, 3, 5, 8)
     Fs = (1, 2, 32) if thorough else (1, 2, 5)
     steers = ('basis', 'generic', 'generic1e3')
-    noises = ('identity', 'diag1e6', '1.0', '1000.0', '1000000.0')
+    noises = ('identity', 'diag1e6', '1.0', '1000.0', '1000000.0', 'identity_real', 'sinc_real')
     subs = []
 
     def mvdr_cases():
